@@ -123,8 +123,8 @@ class Monitor(object):
         t = F(0)
         for a, cid in arr:
             req = self.all_req.get((nid, cid, a))
-            if req is None:
-                return None
+            if req is None or req == 0:
+                return None      # (a zero requirement empties the node at its own arrival instant: order dependent, left to the work integrator)
             if a - t == v and v > 0:
                 return None      # an arrival exactly when the work runs out: emptying is order dependent
             if a - t > v and v > 0:
@@ -259,6 +259,11 @@ def focused(tier):
     out.append(single("ps cap=2 R=2 queue capacity 1", fam, c=2, K=K + 1, arr=[0.25, 0.5, 1.0], srv=[1.0, 2.0, 0.5], nodekw={"ps": True, "ps_threshold": 2, "cap": 1}, D=5 if tier == "quick" else 8, features=["ps", "capacity"]))
     out.append(single("ps cap=1 reneging from the waiting line", fam, c=1, K=K, arr=[0.25, 0.5], srv=[1.0, 2.0], nodekw={"ps": True}, classkw={"renege": [[0.5, 1.5]]}, D=5 if tier == "quick" else 8, features=["ps", "reneging"]))
     out.append(single("ps cap=2 reneging from the waiting line", fam, c=2, K=K + 1, arr=[0.25, 0.5, 1.0], srv=[2.0, 1.0, 0.5], nodekw={"ps": True}, classkw={"renege": [[0.5, 1.5]]}, D=5 if tier == "quick" else 7, features=["ps", "reneging"]))
+    # round 5: a requirement of zero (valid sample) and a non-integer sharing threshold
+    out.append(single("ps cap=inf zero requirement", fam, c="inf", K=K, arr=[0.5, 1.0], srv=[0.0, 1.0, 2.0], nodekw={"ps": True}, features=["ps", "zero"]))
+    out.append(single("ps cap=2 zero requirement", fam, c=2, K=K + 1, arr=[0.25, 0.5], srv=[0.0, 1.0, 2.0], nodekw={"ps": True}, D=5 if tier == "quick" else 8, features=["ps", "zero"]))
+    out.append(single("ps cap=inf R=1.5 batches", fam, c="inf", K=K - 1, arr=[0.5, 1.5], srv=REQ, nodekw={"ps": True, "ps_threshold": 1.5}, classkw={"batch": [[3, 2]]}, D=5 if tier == "quick" else 8, features=["ps", "batching"]))
+    out.append(single("ps cap=3 R=2.5", fam, c=3, K=K + 1, arr=[0.25, 0.5], srv=REQ, nodekw={"ps": True, "ps_threshold": 2.5}, D=5 if tier == "quick" else 8, features=["ps"]))
     return out
 
 
